@@ -65,8 +65,9 @@ type World struct {
 	Keyed       bool
 	Real        bool // real block cycle and signed transactions (ante engine)
 	rcptSeen    map[string]bool
-	txCtx       *sdk.Context // set while the messages of an `atomic` transaction run
-	named       []string     // "<tenant> <request id token>", the latest ones the history named
+	removed     map[int]stakingtypes.Validator // validators whose staking record was removed (setval ... x)
+	txCtx       *sdk.Context                   // set while the messages of an `atomic` transaction run
+	named       []string                       // "<tenant> <request id token>", the latest ones the history named
 	// PermSeed != 0 perturbs nothing in the implementation (Go randomises map order itself); kept for symmetry
 }
 
@@ -713,6 +714,10 @@ func (w *World) exec(line string) Result {
 		w.SK.SetParams(w.at(), p)
 		return Result{Line: "ok"}
 	case "setval": // v power bonded(0/1) jailed(0/1) probonoRate|-
+		if f[3] == "x" {
+			w.removeVal(f[1])
+			return Result{Line: "ok"}
+		}
 		w.setVal(f[1], int64(u64(f[2])), f[3] == "1", f[4] == "1", f[5])
 		return Result{Line: "ok"}
 	case "atomic": // msg ;; msg ;; ... : one transaction of several messages, executed the way baseapp does (one branch, all or nothing)
@@ -737,13 +742,40 @@ func (w *World) exec(line string) Result {
 	return Result{Line: "bad-op"}
 }
 
+// removeVal takes a validator out of the staking module's records, as the end of an unbonding with nothing left delegated does: from then
+// on the staking keeper does not know the operator address (the oracle may still hold a miss counter or a ballot for it).
+func (w *World) removeVal(tok string) {
+	w.setVal(tok, 0, false, false, "-")
+	ctx := w.at()
+	i, _ := strconv.Atoi(tok[1:])
+	sk := w.A.StakingKeeper
+	val, ok := sk.GetValidator(ctx, w.Vals[i])
+	if !ok {
+		return
+	}
+	if w.removed == nil {
+		w.removed = map[int]stakingtypes.Validator{}
+	}
+	w.removed[i] = val
+	sk.DeleteValidatorByPowerIndex(ctx, val)
+	st := ctx.KVStore(w.A.GetKey(stakingtypes.StoreKey))
+	st.Delete(stakingtypes.GetValidatorKey(w.Vals[i]))
+}
+
 func (w *World) setVal(tok string, power int64, bonded, jailed bool, probono string) {
 	ctx := w.at()
 	i, _ := strconv.Atoi(tok[1:])
 	sk := w.A.StakingKeeper
 	val, ok := sk.GetValidator(ctx, w.Vals[i])
 	if !ok {
-		panic("validator missing")
+		// the operator creates its validator again
+		old, was := w.removed[i]
+		if !was {
+			panic("validator missing")
+		}
+		sk.SetValidator(ctx, old)
+		delete(w.removed, i)
+		val = old
 	}
 	sk.DeleteValidatorByPowerIndex(ctx, val)
 	newTokens := sdk.TokensFromConsensusPower(power, sk.PowerReduction(ctx))
@@ -874,6 +906,13 @@ func (w *World) block() (res Result) {
 			dropped = append(dropped, fmt.Sprintf("%d:%d", v.Tenant, v.UtxrId))
 		case *stypes.EventSetRecipients:
 			filled = append(filled, fmt.Sprintf("%d:%d>%s", v.Tenant, v.UtxrId, rcptStr(v.Recipients)))
+			// a record filled and paid within one end-block never shows its recipients in a dump: track their balances from here
+			for _, rc := range v.Recipients {
+				h := hexName(string(rc.Address))
+				if _, named := w.names[h[2:]]; !named {
+					w.rcptSeen[h] = true
+				}
+			}
 		}
 	}
 	post := w.valFlags(ctx)
@@ -1110,19 +1149,23 @@ func (w *World) dumpBalances(ctx sdk.Context) []string {
 		}
 	}
 	for i, v := range w.Vals {
-		val, _ := w.A.StakingKeeper.GetValidator(ctx, v)
-		b, j := 0, 0
-		if val.IsBonded() {
-			b = 1
+		val, found := w.A.StakingKeeper.GetValidator(ctx, v)
+		if !found {
+			out = append(out, fmt.Sprintf("S v%d tokens=0 bonded=0 jailed=0 probono=-", i))
+		} else {
+			b, j := 0, 0
+			if val.IsBonded() {
+				b = 1
+			}
+			if val.Jailed {
+				j = 1
+			}
+			rate := "-"
+			if val.Probono {
+				rate = decStr(val.Commission.Rate)
+			}
+			out = append(out, fmt.Sprintf("S v%d tokens=%s bonded=%d jailed=%d probono=%s", i, val.Tokens.String(), b, j, rate))
 		}
-		if val.Jailed {
-			j = 1
-		}
-		rate := "-"
-		if val.Probono {
-			rate = decStr(val.Commission.Rate)
-		}
-		out = append(out, fmt.Sprintf("S v%d tokens=%s bonded=%d jailed=%d probono=%s", i, val.Tokens.String(), b, j, rate))
 		for _, dc := range w.A.DistrKeeper.GetValidatorOutstandingRewardsCoins(ctx, v) {
 			if contains(denoms, dc.Denom) {
 				out = append(out, fmt.Sprintf("O v%d %s %s", i, EncStr(dc.Denom), decStr(dc.Amount)))
